@@ -20,6 +20,8 @@ Q_Few == {ChargeTok(1), ChargeTok(-2), ChargeTokOne(-1)}
 Q_All == {ChargeTok(1), ChargeTok(-1), ChargeTok(2), ChargeTok(-2), ChargeTok(3), ChargeTok(-3),
           ChargeTok(10), ChargeTok(-12), ChargeTokOne(1), ChargeTokOne(-1)}
 P_All == AllPrefixes
+\* prefixes that contain one another (eta in beta/zeta/theta), an irregular LaTeX form (omicron) and the radical dot
+P_Few == {"alpha-", "beta-", "eta-", "theta-", "omicron-", "."}
 S_All == AllSuffixes
 Bad == {"Xx", "A", "Hx", "Q", "Zz", "Ab", "J", "Nax", "Cc"}
 AllFaults == {"badsymbol", "unclosed", "stray", "mismatch", "contradictory"}
